@@ -1,6 +1,6 @@
 import SaphyrModel.Proofs.InputAgree
 import SaphyrModel.Sc.Scan3
-import SaphyrModel.Proofs.Rel.Final
+import SaphyrModel.Proofs.Rel.Complete
 /-! # C10 — All input back-ends behave identically
 
 `StrInput` (`kind = .str`) reads straight from the remaining string, overriding some twenty trait
@@ -8,26 +8,27 @@ methods with byte-level fast paths; `BufferedInput` and every contract-conformin
 (`kind = .buf`, any capacity) use the trait's default methods over a look-ahead buffer padded with
 NUL at the end of input.
 
-`C10_full` is the property at full strength (equal token streams for every text). **Proved** is the
-whole `Input` interface: `input_interface_agrees` — *every* operation of the interface (the eight
-required methods and all defaulted/overridden ones the scanner calls) returns the same value on a
-string input and on a buffered input of any capacity that see the same characters (`SimIn`), and
-leaves them seeing the same characters. The three override families whose `StrInput` code is a
-different algorithm — byte tests for document indicators and `next_can_be_plain_scalar`, slice
-scans for `skip_while_*` / `fetch_while_is_alpha`, and `skip_ws_to_eol` — are proved equal to the
-trait defaults (loops over `look_ch`/`skip`) by induction over the text. A panic of the buffered side
-(look-ahead beyond the ring, `peek` beyond what was requested, exhausted fuel) claims nothing: the
-look-ahead discipline is C01's subject.
+**`theorem C10 : C10_full`** — for every text, every buffer capacity and every fuel the string back-end
+and the buffered back-end deliver the same tokens (values and spans) and the same outcome (end of
+stream or the same error), unless one of the two runs stops at a panic site. A panic of either side
+(a look-ahead request the ring cannot hold, a `peek` beyond what was requested, a `skip` on an empty
+ring, exhausted fuel) claims nothing: the look-ahead discipline and termination are C01's subject.
 
-**Lifted through the scanner** (`Proofs/Rel/`): a relational Hoare logic over pairs of scanner states that
-differ only in their input, one lemma per model function (generated), gives `scan_backends_agree`: the
-two back-ends deliver the same tokens and the same outcome for every text, every pair of capacities and
-every fuel, unless a run stops at a panic site. Three functions of the scanner branch on the state of
-the look-ahead buffer and take different paths on the two back-ends: the chunked word loop of
-`scan_plain_scalar` (`plain_chunks_agree`) and `scan_block_scalar_content_line` (`content_line_agrees`)
-are **proved** to agree; `skip_block_scalar_indent` is **not** — it is the single hypothesis (`Bespoke`) of
-`C10_partial_modulo_block_scalar_indent`, and for it the check relies on the boundary family (block scalars
-indented around every `bufmaxlen − 2`, six back-ends) and the scanner-model correspondence. -/
+How it is proved:
+* `input_interface_agrees` — *every* operation of the `Input` interface returns the same value on a
+  string input and on a buffered input of any capacity that see the same characters (`SimIn`), and
+  leaves them seeing the same characters; `StrInput`'s overrides whose code is a different algorithm
+  (byte tests for document indicators and `next_can_be_plain_scalar`, slice scans, `skip_ws_to_eol`)
+  are proved equal to the trait defaults (loops over `look_ch`/`skip`) by induction over the text.
+* `Proofs/Rel/` — a relational Hoare logic over pairs of scanner states that differ only in their
+  input, one lemma per model function (generated, `lib/gen/relgen.py`), up to `Scanner::next` and the run.
+* the three functions of the scanner that branch on the state of the look-ahead buffer and take
+  different paths on the two back-ends are proved to agree by hand: the chunked word loop of
+  `scan_plain_scalar` (`plain_chunks_agree`: lock-step with stuttering at the chunk boundaries),
+  `scan_block_scalar_content_line` (`content_line_agrees`: buffer first, then raw reads behind it) and
+  `skip_block_scalar_indent` (`block_scalar_indent_agrees`: one look-ahead when the indentation fits
+  the buffer, refills otherwise) — each via two unary lemmas "this side consumes exactly …".
+The parser is the same code over the token stream, so equal token streams give equal events. -/
 namespace SaphyrModel.C10
 open SaphyrModel SaphyrModel.Sc
 
@@ -50,18 +51,22 @@ theorem plain_chunks_agree (f1 f2 : Nat) (str : Str) : RelS (plainChunks f1 str)
 theorem content_line_agrees (str : Str) : RelS (scanBlockScalarContentLine str) (scanBlockScalarContentLine str) :=
   line_rel str
 
-/-- **C10 for the scanner, all texts, all capacities — under one hypothesis**: that `skip_block_scalar_indent`
-    (whose fast path depends on `bufmaxlen`) agrees across back-ends. Every other function of the scanner
-    is covered by a proved lemma. -/
-theorem C10_partial_modulo_block_scalar_indent (h : Bespoke) : C10_full :=
-  fun text cap fuel _ => @scan_backends_agree h text 128 cap fuel fuel
+/-- `skip_block_scalar_indent` agrees across back-ends whatever their `bufmaxlen`s: the single look-ahead
+    request of the fitting case and the refill loop of the other skip the same spaces -/
+theorem block_scalar_indent_agrees (ind f1 f2 : Nat) (b : Str) :
+    RelS (skipBlockScalarIndent ind f1 b) (skipBlockScalarIndent ind f2 b) := indent_rel ind f1 f2 b
 
-/-- … and the same for arbitrary capacities and fuels on both sides -/
-theorem scan_backends_agree_modulo_indent (h : Bespoke) (text : Str) (cap cap' fuel fuel' : Nat) :
+/-- **C10 for the scanner: all texts, all capacities, all fuels.** -/
+theorem C10 : C10_full :=
+  fun text cap fuel _ => scan_backends_agree_all text 128 cap fuel fuel
+
+/-- … and for arbitrary capacities and fuels on both sides (the contract's `cap ≥ 8` is not even needed:
+    a ring that is too small makes the buffered side stop at a panic site, about which nothing is claimed) -/
+theorem scan_backends_agree_everywhere (text : Str) (cap cap' fuel fuel' : Nat) :
     let a := scanAll fuel (mkSc .str cap text) []
     let b := scanAll fuel' (mkSc .buf cap' text) []
     (∀ p, a.2.1 ≠ .panic p) → (∀ p, b.2.1 ≠ .panic p) → a.1 = b.1 ∧ a.2.1 = b.2.1 :=
-  @scan_backends_agree h text cap cap' fuel fuel'
+  scan_backends_agree_all text cap cap' fuel fuel'
 
 /-- **The whole `Input` interface agrees between the string back-end and any buffered back-end.** -/
 theorem input_interface_agrees :
